@@ -38,6 +38,50 @@ CORPUS = [
 ]
 
 
+def AR(*shape):
+    return ["a", list(shape), "float32"]
+
+
+def PT(name, leaf, structure, value):
+    return {"name": name, "cat": "Float", "dim": "", "pytree": {"leaf": leaf, "structure": structure}, "value": value}
+
+
+FL = lambda d: ["arr", "Float", d]
+PYTREE_CORPUS = [
+    # a later leaf conflicts with an axis bound by an earlier leaf of the SAME tree: nothing of that tree may be listed
+    dict(params=[PT("x", FL("n"), "T", ["t", [AR(3), AR(4)]])], ret=None),
+    dict(params=[P("w", "m"), PT("x", FL("n m"), None, ["l", [AR(3, 5), AR(3, 6)]])], ret=None, shapes={"w": [5]}),
+    dict(params=[P("w", "m"), PT("x", FL("?k m"), "T", ["t", [AR(2, 5), AR(3, 4)]]), P("z", "m")], ret=None, shapes={"w": [5], "z": [5]}),
+    dict(params=[PT("x", FL("n"), "T", ["t", [AR(3), AR(3)]]), PT("y", FL("n"), "T", ["t", [AR(3), AR(3), AR(3)]])], ret=None),
+    dict(params=[PT("x", FL("n"), "T", ["t", [AR(3), AR(3)]]), PT("y", FL("k n"), "T", ["t", [AR(2, 3), AR(2, 4)]])], ret=None),
+    dict(params=[PT("x", FL("n"), "T", ["d", {"a": AR(3), "b": AR(3)}])], ret={"name": "return", "cat": "Float", "dim": "", "pytree": {"leaf": FL("k n"), "structure": "T"}, "value": ["d", {"a": AR(2, 3), "b": AR(2, 9)}]}),
+    dict(params=[PT("x", ["union", [FL("n 7"), FL("n m")]], "S", ["l", [AR(3, 5), AR(3, 5), AR(4, 5)]]), P("z", "n")], ret=None, shapes={"z": [3]}),
+    dict(params=[P("w", "*b m"), PT("x", FL("*b q"), None, ["t", [AR(2, 2, 7), AR(2, 3, 7)]])], ret=None, shapes={"w": [2, 2, 5]}),
+    dict(params=[PT("x", FL("n"), "T", ["t", [AR(3), AR(3)]]), P("z", "n n")], ret=None, shapes={"z": [3, 4]}),
+]
+
+
+def gen_pytree_case(rng):
+    """a call whose PyTree argument has several array leaves; usually one leaf (not the first) breaks an axis bound earlier"""
+    dims = rng.choice(["n", "n m", "?k m", "*b n", "k n"])
+    rank = {"n": 1, "n m": 2, "?k m": 2, "*b n": 2, "k n": 2}[dims]
+    nleaf = rng.choice([2, 3, 4])
+    base = [rng.choice([2, 3]) for _ in range(rank)]
+    leaves = [list(base) for _ in range(nleaf)]
+    if rng.random() < .8:
+        j = rng.randrange(1, nleaf); leaves[j][-1] += rng.choice([1, 2])
+    cont = rng.choice(["t", "l", "d"])
+    val = [cont, {("k%d" % i): AR(*l) for i, l in enumerate(leaves)}] if cont == "d" else [cont, [AR(*l) for l in leaves]]
+    params = []
+    shapes = {}
+    if rng.random() < .6:
+        params.append(P("w", rng.choice(["m", "n", "q r"]))); shapes["w"] = [base[-1]] if params[-1]["dim"] != "q r" else [4, 5]
+    params.append(PT("x", FL(dims), rng.choice([None, "T"]), val))
+    if rng.random() < .5:
+        params.append(P("z", rng.choice(["n", "m", "q"]))); shapes["z"] = [rng.choice([base[-1], 9])]
+    return dict(params=params, ret=None, shapes=shapes)
+
+
 def canon_model_bind(txt):
     """model `S{a=2,b=3} V{v=F(2,3)}` -> list of message-style lines"""
     m = re.fullmatch(r"S\{(.*)\} V\{(.*)\}", txt)
@@ -69,6 +113,10 @@ def main():
                 p["dim"] = (p["dim"] + " {k}").strip()
                 case["shapes"][p["name"]] = case["shapes"][p["name"]] + [case["ints"]["k"] if R.rng.random() < .8 else 5]
         cases.append(case)
+    npt = 400 if R.thorough else 40
+    for c in PYTREE_CORPUS + [gen_pytree_case(R.rng) for _ in range(npt)]:
+        c = dict(c); c.setdefault("shapes", {}); c.setdefault("dtypes", {}); c.setdefault("ret_shape", []); c.setdefault("ret_dtype", "float32")
+        cases.append(c)
     for c in cases:
         c["variants"] = [{"checker": chk, "remove_stack": rs} for chk in ("typeguard", "beartype") for rs in (False, True)]
     nw = 8
@@ -84,7 +132,7 @@ def main():
     # model (cases without unions)
     terms, mcases = [], []
     for c in cases:
-        if any("union" in p for p in c["params"]):
+        if any("union" in p or "pytree" in p for p in c["params"]) or (c["ret"] and "pytree" in c["ret"]):
             continue
         ps = [c02.use_coq(p["dim"], cat_dtypes[p["cat"]], c["shapes"][p["name"]], c["dtypes"].get(p["name"], "float32")) for p in c["params"]]
         ret = "None" if not c["ret"] else "(Some %s)" % c02.use_coq(c["ret"]["dim"], cat_dtypes[c["ret"]["cat"]], c["ret_shape"], c["ret_dtype"])
@@ -96,7 +144,7 @@ def main():
     ncalls, nontriv, samples = 0, set(), []
     for c in cases:
         names = [p["name"] for p in c["params"]]
-        desc = "params %s ret %s shapes %s ret_shape %s" % ([(p["name"], p.get("dim", p.get("union")), p["cat"]) for p in c["params"]], c["ret"], c["shapes"], c["ret_shape"])
+        desc = "params %s ret %s shapes %s ret_shape %s" % ([(p["name"], ("PyTree", p["pytree"], p["value"]) if "pytree" in p else p.get("dim", p.get("union")), p["cat"]) for p in c["params"]], c["ret"], c["shapes"], c["ret_shape"])
         for var, r in zip(c["variants"], results[id(c)]):
             ncalls += 1
             o = r["outcome"]
@@ -120,6 +168,11 @@ def main():
                 if sorted(r["axes"]) != sorted(r["live"]) or r["structs"] != r["live_structs"]:
                     R.violation("property", "the error lists bindings %s but the bindings in force when it was raised were %s: %s" % (r["axes"] + r["structs"], r["live"] + r["live_structs"], desc),
                                 {"case": c, "variant": var, "result": r}, key=dict(key_base, kind="bindings-vs-live"))
+                if r.get("expected_valid") and (sorted(r["axes"]) != sorted(r["expected_axes"]) or sorted(r["structs"]) != sorted(r["expected_structs"])):
+                    R.violation("property", "the error lists bindings %s, but the checks that passed before the failure establish exactly %s (re-run in a fresh context): %s" % (
+                        r["axes"] + r["structs"], r["expected_axes"] + r["expected_structs"], desc), {"case": c, "variant": var, "result": r}, key=dict(key_base, kind="bindings-vs-passed-checks"))
+                if any("pytree" in p for p in c["params"]):
+                    R.count("pytree-call:" + r["stage"])
                 want_cause = not var["remove_stack"]
                 if bool(r["has_cause"]) != want_cause:
                     R.violation("property", "__cause__ %s although jaxtyping_remove_typechecker_stack=%s: %s" % ("present" if r["has_cause"] else "absent", var["remove_stack"], desc),
@@ -150,7 +203,8 @@ def main():
     R.coverage.update(evaluations=ncalls, distinct_nontrivial=len(nontriv), samples=samples,
                       rule="%d corpus + %d PRNG signatures (as C02, ~70%% ill-typed: failure at any parameter position or at the return value; unions with failing first alternative; same name as single and variadic axis; unbound symbolic names) x typeguard/beartype x remove-typechecker-stack on/off. "
                            "Oracles independent of the model: blamed parameter re-checked in a fresh context after its predecessors; listed bindings == live memo at the moment the message is built (spy on shape_str); __cause__ iff switch off; TypeCheckError is a TypeError and names the function. "
-                           "Model oracle: stage, blamed parameter and bindings equal call_new (Coq). non-trivial = distinct ill-typed case" % (len(CORPUS), n))
+                           "listed bindings == what a fresh context holds after exactly the checks that passed before the failure (covers PyTree parameters with several array leaves, '?' axes and structure names: %d corpus + %d PRNG calls). "
+                           "Model oracle: stage, blamed parameter and bindings equal call_new (Coq). non-trivial = distinct ill-typed case" % (len(CORPUS), n, len(PYTREE_CORPUS), npt))
     R.assumptions += ["error text parsed by regex: stage sentence, `parameter '...'`, name=value lines"]
     sys.exit(R.finish())
 
